@@ -104,6 +104,7 @@ func zzCheckProtocol(log *zzLog, who string, label string) {
 // Under every schedule with at most P preemptions the close protocol holds.
 func ZZVerifC11Close() {
 	nd.Schedule(nd.Param("P", 1))
+	nd.Races()
 	log := &zzLog{}
 	shape := nd.Choose("shape", 3) // 0 root only, 1 shared child, 2 isolated child
 	// which listener fails: the quick tier tries a representative subset
@@ -224,6 +225,7 @@ func ZZVerifC11Close() {
 // protocol holds and Close reports an error iff the scope holds one.
 func ZZVerifC11Seq() {
 	nd.Schedule(nd.Param("SP", 0))
+	nd.Races()
 	log := &zzLog{}
 	shape := nd.Choose("shape", 3) // 0 root only, 1 shared child, 2 isolated child
 	root := New(Params{Name: "root"})
